@@ -26,9 +26,9 @@ macro_rules! one_draw_units {
             let d = rd::Cauchy::<$F>::new(median, scale).unwrap();
             let mut rng = WordsRng::<2>::any();
             let x: $F = d.sample(&mut rng);
-            assert!(!x.is_nan(), "Cauchy sample is NaN");
+            kani::assert(!x.is_nan(), "Cauchy sample is NaN");
             kani::cover!(rng.i == 1, "sample returns inside the envelope");
-            assert!(rng.i == 1, "Cauchy consumes exactly one word");
+            kani::assert(rng.i == 1, "Cauchy consumes exactly one word");
         }
 
         /// Pareto: x >= scale, never NaN
@@ -42,10 +42,10 @@ macro_rules! one_draw_units {
             let d = rd::Pareto::<$F>::new(scale, shape).unwrap();
             let mut rng = WordsRng::<2>::any();
             let x: $F = d.sample(&mut rng);
-            assert!(!x.is_nan(), "Pareto sample is NaN");
-            assert!(x >= scale, "Pareto sample below scale");
+            kani::assert(!x.is_nan(), "Pareto sample is NaN");
+            kani::assert(x >= scale, "Pareto sample below scale");
             kani::cover!(rng.i == 1, "sample returns inside the envelope");
-            assert!(rng.i == 1, "Pareto consumes exactly one word");
+            kani::assert(rng.i == 1, "Pareto consumes exactly one word");
         }
 
         /// Weibull: x >= 0, never NaN
@@ -61,10 +61,10 @@ macro_rules! one_draw_units {
             let d = rd::Weibull::<$F>::new(scale, shape).unwrap();
             let mut rng = WordsRng::<2>::any();
             let x: $F = d.sample(&mut rng);
-            assert!(!x.is_nan(), "Weibull sample is NaN");
-            assert!(x >= 0.0, "Weibull sample negative");
+            kani::assert(!x.is_nan(), "Weibull sample is NaN");
+            kani::assert(x >= 0.0, "Weibull sample negative");
             kani::cover!(rng.i == 1, "sample returns inside the envelope");
-            assert!(rng.i == 1, "Weibull consumes exactly one word");
+            kani::assert(rng.i == 1, "Weibull consumes exactly one word");
         }
 
         /// Gumbel: finite. The word making the uniform draw exactly 1 is a KNOWN FINDING (+inf) pinned by its own harness
@@ -81,9 +81,9 @@ macro_rules! one_draw_units {
             let is_one: fn(u64) -> bool = $x_is_one;
             kani::assume(!is_one(rng.w[0]));
             let x: $F = d.sample(&mut rng);
-            assert!(x.is_finite(), "Gumbel sample not finite");
+            kani::assert(x.is_finite(), "Gumbel sample not finite");
             kani::cover!(rng.i == 1, "sample returns inside the envelope");
-            assert!(rng.i == 1, "Gumbel consumes exactly one word");
+            kani::assert(rng.i == 1, "Gumbel consumes exactly one word");
         }
 
         /// Frechet: x >= location, never NaN; known finding (uniform draw exactly 1 -> -inf / +inf) excluded as for Gumbel.
@@ -101,10 +101,10 @@ macro_rules! one_draw_units {
             let is_one: fn(u64) -> bool = $x_is_one;
             kani::assume(!is_one(rng.w[0]));
             let x: $F = d.sample(&mut rng);
-            assert!(!x.is_nan(), "Frechet sample is NaN");
-            assert!(x >= location, "Frechet sample below location");
+            kani::assert(!x.is_nan(), "Frechet sample is NaN");
+            kani::assert(x >= location, "Frechet sample below location");
             kani::cover!(rng.i == 1, "sample returns inside the envelope");
-            assert!(rng.i == 1, "Frechet consumes exactly one word");
+            kani::assert(rng.i == 1, "Frechet consumes exactly one word");
         }
 
         /// Triangular: never NaN (both square-root arguments are non-negative), one word
@@ -118,9 +118,9 @@ macro_rules! one_draw_units {
             let d = rd::Triangular::<$F>::new(min, max, mode).unwrap();
             let mut rng = WordsRng::<2>::any();
             let x: $F = d.sample(&mut rng);
-            assert!(!x.is_nan(), "Triangular sample is NaN");
+            kani::assert(!x.is_nan(), "Triangular sample is NaN");
             kani::cover!(rng.i == 1, "sample returns inside the envelope");
-            assert!(rng.i == 1, "Triangular consumes exactly one word");
+            kani::assert(rng.i == 1, "Triangular consumes exactly one word");
         }
     };
 }
@@ -137,7 +137,7 @@ fn kf_gumbel_inf_f64() {
     let d = rd::Gumbel::<f64>::new(0.0, 1.0).unwrap();
     let mut rng = WordsRng::<2>::of([u64::MAX, 0]);
     let x: f64 = d.sample(&mut rng);
-    assert!(x.is_finite(), "Gumbel sample not finite");
+    kani::assert(x.is_finite(), "Gumbel sample not finite");
 }
 
 /// KNOWN FINDING: Frechet(0, 1, 1) returns -inf (below its location) at the all-ones word: pow(-0.0, -1) = -inf
@@ -148,5 +148,5 @@ fn kf_frechet_neg_inf_f64() {
     let d = rd::Frechet::<f64>::new(0.0, 1.0, 1.0).unwrap();
     let mut rng = WordsRng::<2>::of([u64::MAX, 0]);
     let x: f64 = d.sample(&mut rng);
-    assert!(x >= 0.0, "Frechet sample below location");
+    kani::assert(x >= 0.0, "Frechet sample below location");
 }
